@@ -63,9 +63,18 @@ class Tag(object):
         self.__tagClassId = tagClass, tagId
         self.__hash = hash(self.__tagClassId)
 
+    @staticmethod
+    def _printableId(tagId):
+        try:
+            return '%s' % tagId
+
+        except ValueError:
+            # beyond the interpreter's int-to-str conversion limit
+            return hex(tagId)
+
     def __repr__(self):
         representation = '[%s:%s:%s]' % (
-            self.__tagClass, self.__tagFormat, self.__tagId)
+            self.__tagClass, self.__tagFormat, self._printableId(self.__tagId))
         return '<%s object, tag %s>' % (
             self.__class__.__name__, representation)
 
@@ -194,7 +203,7 @@ class TagSet(object):
         self.__hash = hash(self.__superTagsClassId)
 
     def __repr__(self):
-        representation = '-'.join(['%s:%s:%s' % (x.tagClass, x.tagFormat, x.tagId)
+        representation = '-'.join(['%s:%s:%s' % (x.tagClass, x.tagFormat, Tag._printableId(x.tagId))
                                    for x in self.__superTags])
         if representation:
             representation = 'tags ' + representation
